@@ -13,181 +13,181 @@ FC = "tinylfu_cached::cache::lfu::frequency_counter::"
 
 HARNESSES = [
     # ---------------------------------------------------------------- C14 sketch
-    dict(name="c14_row_increment_kernel", file="frequency_counter.rs", props=["C14", "C17"], timeout=120,
+    dict(name="c14_row_increment_kernel", tier="quick", file="frequency_counter.rs", props=["C14", "C17"], timeout=120,
          encodes=[FC + "Row::increment_at", FC + "Row::get_at"]),
-    dict(name="c14_row_half_and_clear_kernel", file="frequency_counter.rs", props=["C14"], timeout=120,
+    dict(name="c14_row_half_and_clear_kernel", tier="quick", file="frequency_counter.rs", props=["C14"], timeout=120,
          encodes=[FC + "Row::half_counters", FC + "Row::clear", FC + "Row::get_at"]),
-    dict(name="c14_next_power_2_kernel", file="frequency_counter.rs", props=["C14", "C17"], timeout=120,
+    dict(name="c14_next_power_2_kernel", tier="quick", file="frequency_counter.rs", props=["C14", "C17"], timeout=120,
          encodes=[FC + "FrequencyCounter::next_power_2"]),
-    dict(name="c14_sketch_increment_monotone_w4", file="frequency_counter.rs", props=["C14"], timeout=300,
+    dict(name="c14_sketch_increment_monotone_w4", tier="quick", file="frequency_counter.rs", props=["C14"], timeout=300,
          encodes=[FC + "FrequencyCounter::increment", FC + "FrequencyCounter::estimate"]),
-    dict(name="c14_sketch_reset_halves_w4", file="frequency_counter.rs", props=["C14"], timeout=300,
+    dict(name="c14_sketch_reset_halves_w4", tier="quick", file="frequency_counter.rs", props=["C14"], timeout=300,
          encodes=[FC + "FrequencyCounter::reset", FC + "FrequencyCounter::clear", FC + "FrequencyCounter::estimate"]),
-    dict(name="c14_new_sized_for_every_index", file="frequency_counter.rs", props=["C14", "C17"], timeout=300,
+    dict(name="c14_new_sized_for_every_index", tier="quick", file="frequency_counter.rs", props=["C14", "C17"], timeout=300,
          encodes=[FC + "FrequencyCounter::new", FC + "FrequencyCounter::matrix", FC + "FrequencyCounter::seeds",
                   FC + "FrequencyCounter::increment", FC + "FrequencyCounter::estimate"]),
-    dict(name="c14_doorkeeper_step", file="doorkeeper.rs", props=["C14"], timeout=120,
+    dict(name="c14_doorkeeper_step", tier="quick", file="doorkeeper.rs", props=["C14"], timeout=120,
          encodes=["tinylfu_cached::cache::lfu::doorkeeper::DoorKeeper::{new,add_if_missing,has,clear}"]),
-    dict(name="c14_tinylfu_one_access_step", file="tiny_lfu.rs", props=["C14"], timeout=300,
+    dict(name="c14_tinylfu_one_access_step", tier="quick", file="tiny_lfu.rs", props=["C14"], timeout=300,
          encodes=["tinylfu_cached::cache::lfu::tiny_lfu::TinyLFU::{increment_access_for,estimate,reset}", FC + "FrequencyCounter::{increment,estimate,reset}"]),
-    dict(name="c14_tinylfu_never_undercounts_in_window", file="tiny_lfu.rs", props=["C14"], timeout=300,
+    dict(name="c14_tinylfu_never_undercounts_in_window", tier="quick", file="tiny_lfu.rs", props=["C14"], timeout=300,
          encodes=["tinylfu_cached::cache::lfu::tiny_lfu::TinyLFU::{increment_access_for,estimate}"]),
-    dict(name="c14_tinylfu_new", file="tiny_lfu.rs", props=["C14", "C17"], timeout=300,
+    dict(name="c14_tinylfu_new", tier="quick", file="tiny_lfu.rs", props=["C14", "C17"], timeout=300,
          encodes=["tinylfu_cached::cache::lfu::tiny_lfu::TinyLFU::new"]),
-    dict(name="c14_tinylfu_clear", file="tiny_lfu.rs", props=["C14"], timeout=300,
+    dict(name="c14_tinylfu_clear", tier="quick", file="tiny_lfu.rs", props=["C14"], timeout=300,
          encodes=["tinylfu_cached::cache::lfu::tiny_lfu::TinyLFU::clear"]),
     # ---------------------------------------------------------------- C16 stats
-    dict(name="c16_hit_ratio_kernel", file="stats.rs", props=["C16"], timeout=300, encodes=["tinylfu_cached::cache::stats::ConcurrentStatsCounter::hit_ratio"]),
-    dict(name="c16_counters_frame", file="stats.rs", props=["C16"], timeout=300, encodes=["tinylfu_cached::cache::stats::ConcurrentStatsCounter::{add,get,clear,found_a_hit,found_a_miss,add_key,delete_key,update_key,reject_key,add_weight,remove_weight,add_access,drop_access}"]),
-    dict(name="c16_new_starts_at_zero", file="stats.rs", props=["C16"], timeout=300, encodes=["tinylfu_cached::cache::stats::ConcurrentStatsCounter::new"]),
-    dict(name="c16_summary_reports_each_counter", file="stats.rs", props=["C16"], timeout=300, encodes=["tinylfu_cached::cache::stats::ConcurrentStatsCounter::summary", "tinylfu_cached::cache::stats::StatsSummary::get"]),
+    dict(name="c16_hit_ratio_kernel", tier="quick", file="stats.rs", props=["C16"], timeout=300, encodes=["tinylfu_cached::cache::stats::ConcurrentStatsCounter::hit_ratio"]),
+    dict(name="c16_counters_frame", tier="quick", file="stats.rs", props=["C16"], timeout=300, encodes=["tinylfu_cached::cache::stats::ConcurrentStatsCounter::{add,get,clear,found_a_hit,found_a_miss,add_key,delete_key,update_key,reject_key,add_weight,remove_weight,add_access,drop_access}"]),
+    dict(name="c16_new_starts_at_zero", tier="quick", file="stats.rs", props=["C16"], timeout=300, encodes=["tinylfu_cached::cache::stats::ConcurrentStatsCounter::new"]),
+    dict(name="c16_summary_reports_each_counter", tier="quick", file="stats.rs", props=["C16"], timeout=300, encodes=["tinylfu_cached::cache::stats::ConcurrentStatsCounter::summary", "tinylfu_cached::cache::stats::StatsSummary::get"]),
     # ---------------------------------------------------------------- C09 expiry
-    dict(name="c09_put_then_look", file="stored_value.rs", props=["C09"], timeout=300,
+    dict(name="c09_put_then_look", tier="quick", file="stored_value.rs", props=["C09"], timeout=300,
          encodes=["tinylfu_cached::cache::store::stored_value::StoredValue::{expiring,never_expiring,is_alive,calculate_expiry,expire_after}", "tinylfu_cached::cache::clock::Clock::has_passed"]),
-    dict(name="c09_ttl_change_then_look", file="stored_value.rs", props=["C09", "C08"], timeout=300,
+    dict(name="c09_ttl_change_then_look", tier="quick", file="stored_value.rs", props=["C09", "C08"], timeout=300,
          encodes=["tinylfu_cached::cache::store::stored_value::StoredValue::{expiring,never_expiring,is_alive,update,calculate_expiry,expire_after}", "tinylfu_cached::cache::clock::Clock::has_passed"]),
-    dict(name="c09_time_construction_is_faithful", file="stored_value.rs", props=["C09", "C10"], timeout=120, encodes=["harness support: SystemTime construction vs std arithmetic"]),
-    dict(name="c09_clock_has_passed_kernel", file="stored_value.rs", props=["C09"], timeout=120, encodes=["tinylfu_cached::cache::clock::Clock::has_passed"]),
+    dict(name="c09_time_construction_is_faithful", tier="quick", file="stored_value.rs", props=["C09", "C10"], timeout=120, encodes=["harness support: SystemTime construction vs std arithmetic"]),
+    dict(name="c09_clock_has_passed_kernel", tier="quick", file="stored_value.rs", props=["C09"], timeout=120, encodes=["tinylfu_cached::cache::clock::Clock::has_passed"]),
     # ---------------------------------------------------------------- C12 acknowledgement
-    dict(name="c12_done_races_poll", file="acknowledgement.rs", props=["C12", "C18"], timeout=300,
+    dict(name="c12_done_races_poll", tier="quick", file="acknowledgement.rs", props=["C12", "C18"], timeout=300,
          encodes=["tinylfu_cached::cache::command::acknowledgement::CommandAcknowledgementHandle::{done,poll}", "CommandAcknowledgement::new"]),
-    dict(name="c12_poll_races_done", file="acknowledgement.rs", props=["C12"], timeout=300,
+    dict(name="c12_poll_races_done", tier="quick", file="acknowledgement.rs", props=["C12"], timeout=300,
          encodes=["tinylfu_cached::cache::command::acknowledgement::CommandAcknowledgementHandle::{done,poll}"]),
-    dict(name="c12_preresolved", file="acknowledgement.rs", props=["C12"], timeout=120,
+    dict(name="c12_preresolved", tier="quick", file="acknowledgement.rs", props=["C12"], timeout=120,
          encodes=["tinylfu_cached::cache::command::acknowledgement::CommandAcknowledgement::{accepted,rejected}"]),
     # ---------------------------------------------------------------- cache weight (C01/C05/C16) and sampler (C06)
-    dict(name="c05_cache_weight_step", file="cache_weight.rs", props=["C05", "C01", "C16", "C03", "C18", "C17"], timeout=400,
+    dict(name="c05_cache_weight_step", tier="quick", file="cache_weight.rs", props=["C05", "C01", "C16", "C03", "C18", "C17"], timeout=400,
          encodes=["tinylfu_cached::cache::policy::cache_weight::CacheWeight::{is_space_available_for,add,update,delete,clear,contains,weight_of,update_weight_stats}"]),
-    dict(name="c06_sampled_key_order_kernel", file="cache_weight.rs", props=["C06"], timeout=120,
+    dict(name="c06_sampled_key_order_kernel", tier="quick", file="cache_weight.rs", props=["C06"], timeout=120,
          encodes=["tinylfu_cached::cache::policy::cache_weight::SampledKey::{cmp,partial_cmp,eq}"]),
-    dict(name="c06_sampler_pop_and_refill", file="cache_weight.rs", props=["C06"], timeout=600,
+    dict(name="c06_sampler_pop_and_refill", tier="quick", file="cache_weight.rs", props=["C06"], timeout=600,
          encodes=["tinylfu_cached::cache::policy::cache_weight::FrequencyCounterBasedMinHeapSamples::{new,initial_sample,min_frequency_key,maybe_fill_in,size}", "CacheWeight::{sample,delete}"]),
-    dict(name="c06_sampler_victim_order", file="cache_weight.rs", props=["C06"], timeout=600,
+    dict(name="c06_sampler_victim_order", tier="quick", file="cache_weight.rs", props=["C06"], timeout=600,
          encodes=["tinylfu_cached::cache::policy::cache_weight::FrequencyCounterBasedMinHeapSamples::{new,initial_sample,min_frequency_key}", "SampledKey::cmp"]),
     # ---------------------------------------------------------------- store (C02, C09, C04, C07, C08)
-    dict(name="c02_store_reads_agree_with_abstract_map", file="store.rs", props=["C02", "C09", "C16"], timeout=600,
+    dict(name="c02_store_reads_agree_with_abstract_map", tier="quick", file="store.rs", props=["C02", "C09", "C16"], timeout=600,
          encodes=["tinylfu_cached::cache::store::Store::{get,get_ref,contains,is_present}", "StoredValue::is_alive", "KeyValueRef::{key,value}"]),
-    dict(name="c02_store_write_step", file="store.rs", props=["C02", "C03", "C04", "C08"], timeout=600,
+    dict(name="c02_store_write_step", tier="quick", file="store.rs", props=["C02", "C03", "C04", "C08"], timeout=600,
          encodes=["tinylfu_cached::cache::store::Store::{put,put_with_ttl,delete,mark_deleted,update,clear}", "UpdateResponse::{did_update_happen,existing_expiry,new_expiry,value,key_id_or_panic}"]),
     # ---------------------------------------------------------------- admission (C06, C01, C03)
-    dict(name="c06_maybe_add_rule_1_resident", file="admission_policy.rs", props=["C06", "C01", "C03", "C05"], timeout=1200,
+    dict(name="c06_maybe_add_rule_1_resident", tier="quick", file="admission_policy.rs", props=["C06", "C01", "C03", "C05"], timeout=1200,
          encodes=["tinylfu_cached::cache::policy::admission_policy::AdmissionPolicy::{maybe_add,create_space,estimate}", "CacheWeight::{is_space_available_for,add,delete,sample}",
                   "FrequencyCounterBasedMinHeapSamples::{new,initial_sample,min_frequency_key,maybe_fill_in}", "TinyLFU::estimate", "FrequencyCounter::estimate", "DoorKeeper::has"]),
     dict(name="c06_maybe_add_rule_2_residents", tier="thorough", file="admission_policy.rs", props=["C06", "C01", "C18"], timeout=1200,
          encodes=["tinylfu_cached::cache::policy::admission_policy::AdmissionPolicy::{maybe_add,create_space,estimate}", "CacheWeight::{is_space_available_for,add,delete,sample}",
                   "FrequencyCounterBasedMinHeapSamples::{new,initial_sample,min_frequency_key,maybe_fill_in}", "TinyLFU::estimate", "FrequencyCounter::estimate", "DoorKeeper::has"]),
-    dict(name="c06_maybe_add_rule_3_residents", tier="thorough", file="admission_policy.rs", props=["C06", "C01"], timeout=1200,
+    dict(name="c06_maybe_add_rule_3_residents", tier="off", file="admission_policy.rs", props=["C06", "C01"], timeout=1200,
          encodes=["tinylfu_cached::cache::policy::admission_policy::AdmissionPolicy::{maybe_add,create_space,estimate}", "CacheWeight::{is_space_available_for,add,delete,sample}",
                   "FrequencyCounterBasedMinHeapSamples::{new,initial_sample,min_frequency_key,maybe_fill_in}", "TinyLFU::estimate", "FrequencyCounter::estimate", "DoorKeeper::has"]),
-    dict(name="c06_maybe_add_rule_any_residents", tier="thorough", file="admission_policy.rs", props=["C06", "C01"], timeout=1200,
+    dict(name="c06_maybe_add_rule_any_residents", tier="off", file="admission_policy.rs", props=["C06", "C01"], timeout=1200,
          encodes=["tinylfu_cached::cache::policy::admission_policy::AdmissionPolicy::{maybe_add,create_space,estimate}", "CacheWeight::{is_space_available_for,add,delete,sample}",
                   "FrequencyCounterBasedMinHeapSamples::{new,initial_sample,min_frequency_key,maybe_fill_in}", "TinyLFU::estimate", "FrequencyCounter::estimate", "DoorKeeper::has"]),
     # ---------------------------------------------------------------- whole CacheD: reads (C02)
     dict(name="c02_read_get", tier="quick", file="cached.rs", props=["C02", "C09", "C15"], timeout=900,
          encodes=["tinylfu_cached::cache::cached::CacheD::{get,mark_key_accessed,is_shutting_down}", "MultiGetIterator::next", "MultiGetMapIterator::next", "Store::{get,get_ref}", "Pool::add"]),
-    dict(name="c02_read_get_ref", tier="thorough", file="cached.rs", props=["C02", "C15", "C18"], timeout=900,
+    dict(name="c02_read_get_ref", tier="quick", file="cached.rs", props=["C02", "C15", "C18"], timeout=900,
          encodes=["tinylfu_cached::cache::cached::CacheD::{get_ref,mark_key_accessed,is_shutting_down}", "MultiGetIterator::next", "MultiGetMapIterator::next", "Store::{get,get_ref}", "Pool::add"]),
-    dict(name="c02_read_map_get", tier="thorough", file="cached.rs", props=["C02"], timeout=900,
+    dict(name="c02_read_map_get", tier="quick", file="cached.rs", props=["C02"], timeout=900,
          encodes=["tinylfu_cached::cache::cached::CacheD::{map_get,mark_key_accessed,is_shutting_down}", "MultiGetIterator::next", "MultiGetMapIterator::next", "Store::{get,get_ref}", "Pool::add"]),
-    dict(name="c02_read_map_get_ref", tier="thorough", file="cached.rs", props=["C02"], timeout=900,
+    dict(name="c02_read_map_get_ref", tier="quick", file="cached.rs", props=["C02"], timeout=900,
          encodes=["tinylfu_cached::cache::cached::CacheD::{map_get_ref,mark_key_accessed,is_shutting_down}", "MultiGetIterator::next", "MultiGetMapIterator::next", "Store::{get,get_ref}", "Pool::add"]),
-    dict(name="c02_read_multi_get", tier="thorough", file="cached.rs", props=["C02"], timeout=900,
+    dict(name="c02_read_multi_get", tier="quick", file="cached.rs", props=["C02"], timeout=900,
          encodes=["tinylfu_cached::cache::cached::CacheD::{multi_get,mark_key_accessed,is_shutting_down}", "MultiGetIterator::next", "MultiGetMapIterator::next", "Store::{get,get_ref}", "Pool::add"]),
-    dict(name="c02_read_multi_get_iterator", tier="thorough", file="cached.rs", props=["C02"], timeout=900,
+    dict(name="c02_read_multi_get_iterator", tier="quick", file="cached.rs", props=["C02"], timeout=900,
          encodes=["tinylfu_cached::cache::cached::CacheD::{multi_get_iterator,mark_key_accessed,is_shutting_down}", "MultiGetIterator::next", "MultiGetMapIterator::next", "Store::{get,get_ref}", "Pool::add"]),
-    dict(name="c02_read_multi_get_map_iterator", tier="thorough", file="cached.rs", props=["C02"], timeout=900,
+    dict(name="c02_read_multi_get_map_iterator", tier="quick", file="cached.rs", props=["C02"], timeout=900,
          encodes=["tinylfu_cached::cache::cached::CacheD::{multi_get_map_iterator,mark_key_accessed,is_shutting_down}", "MultiGetIterator::next", "MultiGetMapIterator::next", "Store::{get,get_ref}", "Pool::add"]),
-    dict(name="c02_two_keys_multi_get", tier="thorough", file="cached.rs", props=["C02"], timeout=900,
+    dict(name="c02_two_keys_multi_get", tier="quick", file="cached.rs", props=["C02"], timeout=900,
          encodes=["tinylfu_cached::cache::cached::CacheD::{multi_get,multi_get_iterator,multi_get_map_iterator}", "MultiGetIterator::next", "MultiGetMapIterator::next"]),
-    dict(name="c02_two_keys_iterator", tier="thorough", file="cached.rs", props=["C02"], timeout=900,
+    dict(name="c02_two_keys_iterator", tier="quick", file="cached.rs", props=["C02"], timeout=900,
          encodes=["tinylfu_cached::cache::cached::CacheD::{multi_get,multi_get_iterator,multi_get_map_iterator}", "MultiGetIterator::next", "MultiGetMapIterator::next"]),
-    dict(name="c02_two_keys_map_iterator", tier="thorough", file="cached.rs", props=["C02"], timeout=900,
+    dict(name="c02_two_keys_map_iterator", tier="quick", file="cached.rs", props=["C02"], timeout=900,
          encodes=["tinylfu_cached::cache::cached::CacheD::{multi_get,multi_get_iterator,multi_get_map_iterator}", "MultiGetIterator::next", "MultiGetMapIterator::next"]),
-    dict(name="c07_put_client_step_q0", tier="thorough", group="c07_put_client_step", file="cached.rs", props=["C07", "C05"], timeout=900,
+    dict(name="c07_put_client_step_q0", tier="quick", group="c07_put_client_step", file="cached.rs", props=["C07", "C05"], timeout=900,
          encodes=["tinylfu_cached::cache::cached::CacheD::{put,put_with_weight,put_with_ttl,put_with_weight_and_ttl,key_description}", "Store::is_present", "CommandExecutor::send", "Calculation::perform", "CommandAcknowledgement::{new,rejected}"]),
     dict(name="c07_put_client_step_q1", tier="quick", group="c07_put_client_step", file="cached.rs", props=["C07"], timeout=900,
          encodes=["tinylfu_cached::cache::cached::CacheD::{put,put_with_weight,put_with_ttl,put_with_weight_and_ttl,key_description}", "Store::is_present", "CommandExecutor::send", "Calculation::perform", "CommandAcknowledgement::{new,rejected}"]),
     dict(name="c07_put_client_step_q2", tier="quick", group="c07_put_client_step", file="cached.rs", props=["C07", "C11", "C17"], timeout=900,
          encodes=["tinylfu_cached::cache::cached::CacheD::{put,put_with_weight,put_with_ttl,put_with_weight_and_ttl,key_description}", "Store::is_present", "CommandExecutor::send", "Calculation::perform", "CommandAcknowledgement::{new,rejected}"]),
-    dict(name="c07_put_client_step_q3", tier="thorough", group="c07_put_client_step", file="cached.rs", props=["C07"], timeout=900,
+    dict(name="c07_put_client_step_q3", tier="quick", group="c07_put_client_step", file="cached.rs", props=["C07"], timeout=900,
          encodes=["tinylfu_cached::cache::cached::CacheD::{put,put_with_weight,put_with_ttl,put_with_weight_and_ttl,key_description}", "Store::is_present", "CommandExecutor::send", "Calculation::perform", "CommandAcknowledgement::{new,rejected}"]),
-    dict(name="c04_delete_hides_then_releases_q0", tier="thorough", group="c04_delete_hides_then_releases", file="cached.rs", props=["C04", "C16", "C18"], timeout=900,
+    dict(name="c04_delete_hides_then_releases_q0", tier="quick", group="c04_delete_hides_then_releases", file="cached.rs", props=["C04", "C16", "C18"], timeout=900,
          encodes=["tinylfu_cached::cache::cached::CacheD::{delete,get,get_ref,put_with_weight,total_weight_used}", "Store::{mark_deleted,delete}", "CommandExecutor::{send,spin (worker closure),delete}", "AdmissionPolicy::delete", "CacheWeight::delete", "TTLTicker::delete", "CommandAcknowledgementHandle::{done,poll}"]),
     dict(name="c04_delete_hides_then_releases_q1", tier="quick", group="c04_delete_hides_then_releases", file="cached.rs", props=["C04"], timeout=900,
          encodes=["tinylfu_cached::cache::cached::CacheD::{delete,get,get_ref,put_with_weight,total_weight_used}", "Store::{mark_deleted,delete}", "CommandExecutor::{send,spin (worker closure),delete}", "AdmissionPolicy::delete", "CacheWeight::delete", "TTLTicker::delete", "CommandAcknowledgementHandle::{done,poll}"]),
-    dict(name="c04_delete_hides_then_releases_q2", tier="thorough", group="c04_delete_hides_then_releases", file="cached.rs", props=["C04"], timeout=900,
+    dict(name="c04_delete_hides_then_releases_q2", tier="quick", group="c04_delete_hides_then_releases", file="cached.rs", props=["C04"], timeout=900,
          encodes=["tinylfu_cached::cache::cached::CacheD::{delete,get,get_ref,put_with_weight,total_weight_used}", "Store::{mark_deleted,delete}", "CommandExecutor::{send,spin (worker closure),delete}", "AdmissionPolicy::delete", "CacheWeight::delete", "TTLTicker::delete", "CommandAcknowledgementHandle::{done,poll}"]),
-    dict(name="c04_delete_hides_then_releases_q3", tier="thorough", group="c04_delete_hides_then_releases", file="cached.rs", props=["C04"], timeout=900,
+    dict(name="c04_delete_hides_then_releases_q3", tier="quick", group="c04_delete_hides_then_releases", file="cached.rs", props=["C04"], timeout=900,
          encodes=["tinylfu_cached::cache::cached::CacheD::{delete,get,get_ref,put_with_weight,total_weight_used}", "Store::{mark_deleted,delete}", "CommandExecutor::{send,spin (worker closure),delete}", "AdmissionPolicy::delete", "CacheWeight::delete", "TTLTicker::delete", "CommandAcknowledgementHandle::{done,poll}"]),
-    dict(name="c07_put_while_writer_holds_guard", tier="thorough", file="cached.rs", props=["C07", "C18"], timeout=900,
+    dict(name="c07_put_while_writer_holds_guard", tier="off", file="cached.rs", props=["C07", "C18"], timeout=900,
          encodes=["tinylfu_cached::cache::cached::CacheD::{put_or_update,put_with_weight}", "Store::{update,is_present}"]),
-    dict(name="c04_delete_while_reader_holds_guard", tier="thorough", file="cached.rs", props=["C04", "C18"], timeout=900,
+    dict(name="c04_delete_while_reader_holds_guard", tier="off", file="cached.rs", props=["C04", "C18"], timeout=900,
          encodes=["tinylfu_cached::cache::cached::CacheD::{get_ref,delete,get,total_weight_used}", "Store::mark_deleted"]),
-    dict(name="c08_put_or_update_step_q0", tier="thorough", group="c08_put_or_update_step", file="cached.rs", props=["C08", "C10", "C18"], timeout=1500,
+    dict(name="c08_put_or_update_step_q0", tier="off", group="c08_put_or_update_step", file="cached.rs", props=["C08", "C10", "C18"], timeout=1500,
          encodes=["tinylfu_cached::cache::cached::CacheD::{put_or_update,get,key_description}", "PutOrUpdateRequest::updated_weight", "Store::update", "StoredValue::update", "UpdateResponse::type_of_expiry_update", "TTLTicker::{put,update,delete}", "AdmissionPolicy::{weight_of,update}", "CacheWeight::update", "CommandExecutor::{send,spin (worker closure: UpdateWeight arm)}"]),
-    dict(name="c08_put_or_update_step_q1", tier="thorough", group="c08_put_or_update_step", file="cached.rs", props=["C08"], timeout=1500,
+    dict(name="c08_put_or_update_step_q1", tier="off", group="c08_put_or_update_step", file="cached.rs", props=["C08"], timeout=1500,
          encodes=["tinylfu_cached::cache::cached::CacheD::{put_or_update,get,key_description}", "PutOrUpdateRequest::updated_weight", "Store::update", "StoredValue::update", "UpdateResponse::type_of_expiry_update", "TTLTicker::{put,update,delete}", "AdmissionPolicy::{weight_of,update}", "CacheWeight::update", "CommandExecutor::{send,spin (worker closure: UpdateWeight arm)}"]),
-    dict(name="c08_put_or_update_step_q2", tier="thorough", group="c08_put_or_update_step", file="cached.rs", props=["C08"], timeout=1500,
+    dict(name="c08_put_or_update_step_q2", tier="quick", group="c08_put_or_update_step", file="cached.rs", props=["C08"], timeout=1500,
          encodes=["tinylfu_cached::cache::cached::CacheD::{put_or_update,get,key_description}", "PutOrUpdateRequest::updated_weight", "Store::update", "StoredValue::update", "UpdateResponse::type_of_expiry_update", "TTLTicker::{put,update,delete}", "AdmissionPolicy::{weight_of,update}", "CacheWeight::update", "CommandExecutor::{send,spin (worker closure: UpdateWeight arm)}"]),
-    dict(name="c08_put_or_update_step_q3", tier="thorough", group="c08_put_or_update_step", file="cached.rs", props=["C08"], timeout=1500,
+    dict(name="c08_put_or_update_step_q3", tier="quick", group="c08_put_or_update_step", file="cached.rs", props=["C08"], timeout=1500,
          encodes=["tinylfu_cached::cache::cached::CacheD::{put_or_update,get,key_description}", "PutOrUpdateRequest::updated_weight", "Store::update", "StoredValue::update", "UpdateResponse::type_of_expiry_update", "TTLTicker::{put,update,delete}", "AdmissionPolicy::{weight_of,update}", "CacheWeight::update", "CommandExecutor::{send,spin (worker closure: UpdateWeight arm)}"]),
-    dict(name="c05_worker_put_step_q0", tier="thorough", group="c05_worker_put_step", file="cached.rs", props=["C05"], timeout=1800,
+    dict(name="c05_worker_put_step_q0", tier="quick", group="c05_worker_put_step", file="cached.rs", props=["C05"], timeout=1800,
          encodes=["tinylfu_cached::cache::command::command_executor::CommandExecutor::{spin (worker closure: Put, PutWithTTL arms),put,put_with_ttl,send}", "AdmissionPolicy::{maybe_add,create_space}", "Store::{put,put_with_ttl,delete (as eviction hook)}", "TTLTicker::put", "CommandAcknowledgementHandle::done"]),
-    dict(name="c05_worker_put_step_q1", tier="thorough", group="c05_worker_put_step", file="cached.rs", props=["C05"], timeout=1800,
+    dict(name="c05_worker_put_step_q1", tier="quick", group="c05_worker_put_step", file="cached.rs", props=["C05"], timeout=1800,
          encodes=["tinylfu_cached::cache::command::command_executor::CommandExecutor::{spin (worker closure: Put, PutWithTTL arms),put,put_with_ttl,send}", "AdmissionPolicy::{maybe_add,create_space}", "Store::{put,put_with_ttl,delete (as eviction hook)}", "TTLTicker::put", "CommandAcknowledgementHandle::done"]),
-    dict(name="c05_worker_put_step_q2", tier="thorough", group="c05_worker_put_step", file="cached.rs", props=["C05", "C01", "C03", "C18"], timeout=1800,
+    dict(name="c05_worker_put_step_q2", tier="off", group="c05_worker_put_step", file="cached.rs", props=["C05", "C01", "C03", "C18"], timeout=1800,
          encodes=["tinylfu_cached::cache::command::command_executor::CommandExecutor::{spin (worker closure: Put, PutWithTTL arms),put,put_with_ttl,send}", "AdmissionPolicy::{maybe_add,create_space}", "Store::{put,put_with_ttl,delete (as eviction hook)}", "TTLTicker::put", "CommandAcknowledgementHandle::done"]),
-    dict(name="c05_worker_put_step_q3", tier="thorough", group="c05_worker_put_step", file="cached.rs", props=["C05"], timeout=1800,
+    dict(name="c05_worker_put_step_q3", tier="off", group="c05_worker_put_step", file="cached.rs", props=["C05"], timeout=1800,
          encodes=["tinylfu_cached::cache::command::command_executor::CommandExecutor::{spin (worker closure: Put, PutWithTTL arms),put,put_with_ttl,send}", "AdmissionPolicy::{maybe_add,create_space}", "Store::{put,put_with_ttl,delete (as eviction hook)}", "TTLTicker::put", "CommandAcknowledgementHandle::done"]),
     # ---------------------------------------------------------------- expiry index + sweeper (C10)
-    dict(name="c10_one_sweep_removes_exactly_the_expired", file="expiration.rs", props=["C10"], timeout=900,
+    dict(name="c10_one_sweep_removes_exactly_the_expired", tier="quick", file="expiration.rs", props=["C10"], timeout=900,
          encodes=["tinylfu_cached::cache::expiration::TTLTicker::{new,spin (sweeper closure),shard_index}", "hashbrown::HashMap::retain (model)"]),
-    dict(name="c13_sweeper_stops_after_shutdown", file="expiration.rs", props=["C13"], timeout=300,
+    dict(name="c13_sweeper_stops_after_shutdown", tier="quick", file="expiration.rs", props=["C13"], timeout=300,
          encodes=["tinylfu_cached::cache::expiration::TTLTicker::{shutdown,clear,spin (sweeper closure)}"]),
     dict(name="c10_index_tracks_current_expiry", tier="quick", file="expiration.rs", props=["C10", "C03"], timeout=900,
          encodes=["tinylfu_cached::cache::expiration::TTLTicker::{put,update,delete,get,shard_index}"]),
     # ---------------------------------------------------------------- access pipeline (C15)
-    dict(name="c15_pool_add_b1_empty", group="c15_pool_add", file="pool.rs", props=["C15"], timeout=600,
+    dict(name="c15_pool_add_b1_empty", tier="quick", group="c15_pool_add", file="pool.rs", props=["C15"], timeout=600,
          encodes=["tinylfu_cached::cache::pool::Pool::{new,add}", "Buffer::{new,add}", "AdmissionPolicy::accept (select! try-send)"]),
-    dict(name="c15_pool_add_b1_full", group="c15_pool_add", file="pool.rs", props=["C15"], timeout=600,
+    dict(name="c15_pool_add_b1_full", tier="quick", group="c15_pool_add", file="pool.rs", props=["C15"], timeout=600,
          encodes=["tinylfu_cached::cache::pool::Pool::{new,add}", "Buffer::{new,add}", "AdmissionPolicy::accept (select! try-send)"]),
-    dict(name="c15_pool_add_b2_half", group="c15_pool_add", file="pool.rs", props=["C15"], timeout=600,
+    dict(name="c15_pool_add_b2_half", tier="quick", group="c15_pool_add", file="pool.rs", props=["C15"], timeout=600,
          encodes=["tinylfu_cached::cache::pool::Pool::{new,add}", "Buffer::{new,add}", "AdmissionPolicy::accept (select! try-send)"]),
-    dict(name="c15_pool_add_b2_full", group="c15_pool_add", file="pool.rs", props=["C15", "C18"], timeout=600,
+    dict(name="c15_pool_add_b2_full", tier="quick", group="c15_pool_add", file="pool.rs", props=["C15", "C18"], timeout=600,
          encodes=["tinylfu_cached::cache::pool::Pool::{new,add}", "Buffer::{new,add}", "AdmissionPolicy::accept (select! try-send)"]),
-    dict(name="c15_pool_add_two_buffers", tier="thorough", group="c15_pool_add", file="pool.rs", props=["C15", "C18"], timeout=600,
+    dict(name="c15_pool_add_two_buffers", tier="off", group="c15_pool_add", file="pool.rs", props=["C15", "C18"], timeout=600,
          encodes=["tinylfu_cached::cache::pool::Pool::{new,add}", "Buffer::{new,add}", "AdmissionPolicy::accept (select! try-send)"]),
     # ---------------------------------------------------------------- small kernels
-    dict(name="c05_ids_are_fresh", file="id_generator.rs", props=["C05", "C11"], timeout=120, encodes=["tinylfu_cached::cache::unique_id::increasing_id_generator::IncreasingIdGenerator::{new,next}"]),
-    dict(name="c17_default_weight_calculation", file="config.rs", props=["C17", "C08"], timeout=120, encodes=["tinylfu_cached::cache::config::weight_calculation::Calculation::{perform,ttl_ticker_entry_size}"]),
-    dict(name="c08_updated_weight_kernel", file="put_or_update.rs", props=["C08"], timeout=120, encodes=["tinylfu_cached::cache::put_or_update::PutOrUpdateRequest::updated_weight"]),
-    dict(name="c08_builder_builds_wellformed_requests", file="put_or_update.rs", props=["C08", "C17"], timeout=120, encodes=["tinylfu_cached::cache::put_or_update::PutOrUpdateRequestBuilder::{new,value,weight,time_to_live,remove_time_to_live,build}"]),
+    dict(name="c05_ids_are_fresh", tier="quick", file="id_generator.rs", props=["C05", "C11"], timeout=120, encodes=["tinylfu_cached::cache::unique_id::increasing_id_generator::IncreasingIdGenerator::{new,next}"]),
+    dict(name="c17_default_weight_calculation", tier="quick", file="config.rs", props=["C17", "C08"], timeout=120, encodes=["tinylfu_cached::cache::config::weight_calculation::Calculation::{perform,ttl_ticker_entry_size}"]),
+    dict(name="c08_updated_weight_kernel", tier="quick", file="put_or_update.rs", props=["C08"], timeout=120, encodes=["tinylfu_cached::cache::put_or_update::PutOrUpdateRequest::updated_weight"]),
+    dict(name="c08_builder_builds_wellformed_requests", tier="quick", file="put_or_update.rs", props=["C08", "C17"], timeout=120, encodes=["tinylfu_cached::cache::put_or_update::PutOrUpdateRequestBuilder::{new,value,weight,time_to_live,remove_time_to_live,build}"]),
     # ---------------------------------------------------------------- bursts, shutdown, sweep end to end, consumer
-    dict(name="c11_unawaited_burst_queue_of_1", tier="thorough", group="c11_unawaited_burst", file="cached.rs", props=["C11", "C18"], timeout=1200,
+    dict(name="c11_unawaited_burst_queue_of_1", tier="off", group="c11_unawaited_burst", file="cached.rs", props=["C11", "C18"], timeout=1200,
          encodes=["tinylfu_cached::cache::cached::CacheD::{put_with_weight,delete,get}", "CommandExecutor::{send,spin (worker closure)}", "crossbeam_channel (model): blocking send on a full queue"]),
-    dict(name="c11_unawaited_burst_queue_of_2", tier="thorough", group="c11_unawaited_burst", file="cached.rs", props=["C11", "C18"], timeout=1200,
+    dict(name="c11_unawaited_burst_queue_of_2", tier="off", group="c11_unawaited_burst", file="cached.rs", props=["C11", "C18"], timeout=1200,
          encodes=["tinylfu_cached::cache::cached::CacheD::{put_with_weight,delete,get}", "CommandExecutor::{send,spin (worker closure)}", "crossbeam_channel (model): blocking send on a full queue"]),
-    dict(name="c13_shutdown_gate_and_drain_queue_of_1", tier="thorough", group="c13_shutdown_gate_and_drain", file="cached.rs", props=["C13", "C18"], timeout=1200,
+    dict(name="c13_shutdown_gate_and_drain_queue_of_1", tier="off", group="c13_shutdown_gate_and_drain", file="cached.rs", props=["C13", "C18"], timeout=1200,
          encodes=["tinylfu_cached::cache::cached::CacheD::{shutdown,is_shutting_down + every read and write entry point}", "CommandExecutor::{shutdown,spin (worker closure: Shutdown arm + drain)}", "AdmissionPolicy::{shutdown,clear}", "TTLTicker::{shutdown,clear}", "Store::clear"]),
-    dict(name="c13_shutdown_gate_and_drain_queue_of_2", tier="thorough", group="c13_shutdown_gate_and_drain", file="cached.rs", props=["C13", "C18"], timeout=1200,
+    dict(name="c13_shutdown_gate_and_drain_queue_of_2", tier="off", group="c13_shutdown_gate_and_drain", file="cached.rs", props=["C13", "C18"], timeout=1200,
          encodes=["tinylfu_cached::cache::cached::CacheD::{shutdown,is_shutting_down + every read and write entry point}", "CommandExecutor::{shutdown,spin (worker closure: Shutdown arm + drain)}", "AdmissionPolicy::{shutdown,clear}", "TTLTicker::{shutdown,clear}", "Store::clear"]),
-    dict(name="c13_late_send_races_drain", tier="thorough", file="cached.rs", props=["C13", "C12"], timeout=900,
+    dict(name="c13_late_send_races_drain", tier="off", file="cached.rs", props=["C13", "C12"], timeout=900,
          encodes=["tinylfu_cached::cache::command::command_executor::CommandExecutor::{shutdown,send,spin (worker closure: Shutdown arm + drain loop)}", "CommandAcknowledgementHandle::done"]),
     dict(name="c13_command_behind_shutdown_is_answered", tier="quick", file="cached.rs", props=["C13", "C12"], timeout=900,
          encodes=["tinylfu_cached::cache::command::command_executor::CommandExecutor::{shutdown,send,spin (worker closure: drain loop)}"]),
-    dict(name="c10_sweep_with_stale_entry", tier="thorough", file="cached.rs", props=["C10"], timeout=1200,
+    dict(name="c10_sweep_with_stale_entry", tier="off", file="cached.rs", props=["C10"], timeout=1200,
          encodes=["tinylfu_cached::cache::expiration::TTLTicker::spin (sweeper closure)", "CacheD::ttl_ticker (evict hook)", "AdmissionPolicy::delete_with_hook", "CacheWeight::delete"]),
-    dict(name="c10_sweep_end_to_end", tier="thorough", group="c10_sweep_end_to_end", file="cached.rs", props=["C10"], timeout=1200,
+    dict(name="c10_sweep_end_to_end", tier="off", group="c10_sweep_end_to_end", file="cached.rs", props=["C10"], timeout=1200,
          encodes=["tinylfu_cached::cache::expiration::TTLTicker::spin (sweeper closure)", "CacheD::ttl_ticker (evict hook)", "AdmissionPolicy::delete_with_hook", "CacheWeight::delete", "Store::delete"]),
-    dict(name="c10_sweep_end_to_end_later_tick", tier="thorough", group="c10_sweep_end_to_end", file="cached.rs", props=["C10", "C18"], timeout=1200,
+    dict(name="c10_sweep_end_to_end_later_tick", tier="off", group="c10_sweep_end_to_end", file="cached.rs", props=["C10", "C18"], timeout=1200,
          encodes=["tinylfu_cached::cache::expiration::TTLTicker::spin (sweeper closure)", "CacheD::ttl_ticker (evict hook)", "AdmissionPolicy::delete_with_hook", "CacheWeight::delete", "Store::delete"]),
-    dict(name="c10_sweep_end_to_end_other_shard", tier="thorough", group="c10_sweep_end_to_end", file="cached.rs", props=["C10"], timeout=1200,
+    dict(name="c10_sweep_end_to_end_other_shard", tier="off", group="c10_sweep_end_to_end", file="cached.rs", props=["C10"], timeout=1200,
          encodes=["tinylfu_cached::cache::expiration::TTLTicker::spin (sweeper closure)", "CacheD::ttl_ticker (evict hook)", "AdmissionPolicy::delete_with_hook", "CacheWeight::delete", "Store::delete"]),
-    dict(name="c15_consumer_applies_each_batch_once", file="admission_policy.rs", props=["C15"], timeout=900,
+    dict(name="c15_consumer_applies_each_batch_once", tier="quick", file="admission_policy.rs", props=["C15"], timeout=900,
          encodes=["tinylfu_cached::cache::policy::admission_policy::AdmissionPolicy::{with_channel_capacity,start (consumer closure),accept,estimate}", "TinyLFU::{new,increment_access}"]),
-    dict(name="c15_consumer_races_estimate", tier="thorough", file="admission_policy.rs", props=["C15"], timeout=900,
+    dict(name="c15_consumer_races_estimate", tier="off", file="admission_policy.rs", props=["C15"], timeout=900,
          encodes=["tinylfu_cached::cache::policy::admission_policy::AdmissionPolicy::{start (consumer closure),estimate,accept}"]),
-    dict(name="c13_consumer_stops_on_shutdown", file="admission_policy.rs", props=["C13"], timeout=900,
+    dict(name="c13_consumer_stops_on_shutdown", tier="quick", file="admission_policy.rs", props=["C13"], timeout=900,
          encodes=["tinylfu_cached::cache::policy::admission_policy::AdmissionPolicy::{shutdown,clear,accept,start (consumer closure)}"]),
 ]
 
